@@ -181,9 +181,30 @@ def run(ctx):
     enc_lines, enc_impl, dec_lines, dec_impl = [], [], [], []
     seen_layouts = set()
     nbt_skipped = 0
+    import json as _json
+    import os as _os
+    k1 = set()
+    try:
+        for f_ in _json.load(open(_os.path.join(_os.path.dirname(_os.path.dirname(_os.path.dirname(_os.path.abspath(__file__)))), 'known_findings.json')))['findings']:
+            if f_['property'] == 'C06' and f_['kind'] == 'known':
+                k1.add((f_['key']['table'], f_['key']['version'], f_['key']['id']))
+    except Exception:
+        pass
     for tname, direction, state in extract.TABLES:
         mod = getattr(getattr(packets, direction), state)
         idrows = {pv: dict(ents) for pv, sup, ents in ids[tname]}
+        # "reading the bytes back yields a packet of the same class": the id a packet is written with must not be the id of
+        # another class registered for the same state, direction and version (the collisions recorded under C06 excepted)
+        for v in SUP:
+            byid = {}
+            for cname, pid in idrows.get(v, {}).items():
+                byid.setdefault(pid, []).append(cname)
+            for pid, names in byid.items():
+                if len(names) > 1 and (tname, v, pid) not in k1 and isinstance(pid, int):
+                    ctx.violation('%s at protocol %d: packets of classes %s are all written with id 0x%02X, so the id does not lead back '
+                                  'to the class that was written' % (tname, v, '/'.join(sorted(names)), pid),
+                                  {'table': tname, 'version': v, 'id': pid, 'classes': sorted(names)},
+                                  key={'kind': 'id-shared', 'table': tname, 'version': v, 'id': pid})
         for v in versions:
             cx = ConnectionContext(protocol_version=v)
             for cls in sorted(mod.get_packets(cx), key=lambda c: c.__name__):
@@ -296,6 +317,30 @@ def run(ctx):
                                       {'class': cls.__name__, 'version': v}, key={'class': cls.__name__, 'version': v, 'kind': 'repr'})
     except ImportError:
         ctx.notes.append('pynbt missing: NBT classes not exercised')
+    # ---- the one-byte sound pitch of the protocols before 201: every byte read and written again is the same byte, and the
+    # value read back from it is the value written (wire-representable values are exactly the 256 the reader can produce)
+    try:
+        from minecraft.networking.packets.clientbound.play import SoundEffectPacket
+        import io as _io
+        for v in [x for x in SUP if rank[x] < rank[201] and rank[x] >= rank[107]]:
+            cx = ConnectionContext(protocol_version=v)
+            for b in range(256):
+                ctx.case(('pitch-byte', v, b))
+                try:
+                    val = SoundEffectPacket.Pitch.read_with_context(_io.BytesIO(bytes([b])), cx)
+                    buf = PacketBuffer()
+                    SoundEffectPacket.Pitch.send_with_context(val, buf, cx)
+                    out = buf.get_writable()
+                    back = SoundEffectPacket.Pitch.read_with_context(_io.BytesIO(out), cx) if len(out) == 1 else None
+                except Exception as e:
+                    out, back, val = repr(e), None, None
+                if out != bytes([b]) or back != val:
+                    ctx.violation('sound effect pitch at protocol %d: wire byte %02x reads as %r, which is written as %r (reads back as %r)'
+                                  % (v, b, val, out.hex() if isinstance(out, bytes) else out, back),
+                                  {'version': v, 'byte': b}, key={'kind': 'pitch-byte', 'byte': b})
+                    break
+    except ImportError:
+        pass
     # ------------------------------------------------------------------ user-defined packets: random field lists
     from minecraft.networking.types import basic as B
     atoms = [('bool', B.Boolean), ('u8', B.UnsignedByte), ('i8', B.Byte), ('i16', B.Short), ('u16', B.UnsignedShort),
